@@ -137,7 +137,7 @@ type c15Ack struct {
 }
 
 type c15COp struct {
-	K     string   `json:"k"` // pub | sub
+	K     string   `json:"k"` // pub | sub | unsub
 	GapMs int      `json:"gap_ms,omitempty"`
 	ID    string   `json:"id,omitempty"`
 	T     string   `json:"t,omitempty"`
@@ -152,6 +152,15 @@ type c15Client struct {
 	Acks       []c15Ack    `json:"acks,omitempty"`
 	StallAfter int         `json:"stall_after,omitempty"` // stop reading once this many PUBLISH packets were received ...
 	StallMs    int         `json:"stall_ms,omitempty"`    // ... for this long (-1: for good)
+	// population dynamics: several entries may carry the same id (successive
+	// connections of one client id; the predecessor of an entry is the nearest
+	// earlier entry with the same id).
+	Persist  bool   `json:"persist,omitempty"`    // cleanSession=0 (honoured only for the first connection of an id)
+	StartMs  int    `json:"start_ms,omitempty"`   // delay before dialling (after the After condition)
+	After    string `json:"after,omitempty"`      // "" | ready (predecessor still connected: take-over) | gone (predecessor ended)
+	End      string `json:"end,omitempty"`        // "" stays | disconnect | close | reset | ping (PINGREQ, only useful when superseded)
+	EndWhen  string `json:"end_when,omitempty"`   // "" after the script | superseded (after a successor was accepted)
+	EndGapMs int    `json:"end_gap_ms,omitempty"` // delay before the end
 }
 
 type c15Pub struct {
@@ -193,6 +202,19 @@ func c15Gen(rng *sim.Rand, tier string) interface{} {
 		}
 		topics = append(topics, strings.Join(l, "/"))
 	}
+	// population dynamics (unsubscribe, disconnects, reconnects, take-overs,
+	// late joiners) in about half of the scenarios, over nested topics so that
+	// one client's filter is a strict level-prefix of another's
+	dyn := rng.Bool(0.55)
+	nestBase, nestChild := "", ""
+	if dyn {
+		nestBase = lv[rng.Intn(3)]
+		if rng.Bool(0.6) {
+			nestBase += "/" + lv[rng.Intn(3)]
+		}
+		nestChild = nestBase + "/" + lv[rng.Intn(3)]
+		topics = append(topics, nestBase, nestChild)
+	}
 	topic := func() string {
 		if rng.Bool(0.08) {
 			return lv[rng.Intn(3)] + "/" + lv[rng.Intn(3)]
@@ -201,8 +223,14 @@ func c15Gen(rng *sim.Rand, tier string) interface{} {
 	}
 	filterFor := func(t string) string {
 		l := strings.Split(t, "/")
-		switch rng.Intn(7) {
+		switch rng.Intn(8) {
 		case 0, 1:
+			return t
+		case 7:
+			// a strict level-prefix of the topic
+			if len(l) > 1 {
+				return strings.Join(l[:rng.Range(1, len(l)-1)], "/")
+			}
 			return t
 		case 2:
 			l[rng.Intn(len(l))] = "+"
@@ -230,12 +258,15 @@ func c15Gen(rng *sim.Rand, tier string) interface{} {
 	}
 	nC := rng.Range(2, 6)
 	big := rng.Bool(0.25) // scenario with long bursts
-	for i := 0; i < nC; i++ {
-		cl := c15Client{ID: fmt.Sprintf("k%d", i)}
+	mkClient := func(id string) c15Client {
+		cl := c15Client{ID: id}
 		nf := rng.Pick(1, 1, 2, 2, 3, 4)
 		var subs []c15Sub
 		for j := 0; j < nf; j++ {
 			subs = append(subs, c15Sub{F: filterFor(topic()), Q: qos()})
+		}
+		if dyn && rng.Bool(0.6) {
+			subs = append(subs, c15Sub{F: rng.PickStr(nestBase, nestBase, nestChild, nestBase+"/#", nestBase+"/+", nestChild+"/#"), Q: qos()})
 		}
 		if rng.Bool(0.35) {
 			// overlapping filters of one client with different QoS
@@ -281,9 +312,19 @@ func c15Gen(rng *sim.Rand, tier string) interface{} {
 			}
 		}
 		nOps := rng.Pick(0, 0, 1, 2, 5)
+		if dyn {
+			nOps = rng.Pick(0, 1, 2, 3, 5)
+		}
 		for j := 0; j < nOps; j++ {
 			op := c15COp{GapMs: rng.Pick(0, 0, 1, 30, 250)}
-			if rng.Bool(0.2) {
+			if dyn && rng.Bool(0.35) {
+				op.K = "unsub"
+				if rng.Bool(0.8) {
+					op.Subs = []c15Sub{{F: subs[rng.Intn(len(subs))].F}}
+				} else {
+					op.Subs = []c15Sub{{F: filterFor(topic())}}
+				}
+			} else if rng.Bool(0.2) {
 				op.K = "sub"
 				if rng.Bool(0.5) && len(subs) > 0 {
 					s := subs[rng.Intn(len(subs))]
@@ -299,7 +340,60 @@ func c15Gen(rng *sim.Rand, tier string) interface{} {
 			}
 			cl.Ops = append(cl.Ops, op)
 		}
+		return cl
+	}
+	for i := 0; i < nC; i++ {
+		cl := mkClient(fmt.Sprintf("k%d", i))
+		if dyn && rng.Bool(0.3) {
+			cl.End = rng.PickStr("disconnect", "close", "reset")
+			cl.EndGapMs = rng.Pick(0, 1, 50, 300)
+			cl.Persist = rng.Bool(0.6)
+		}
 		sc.Clients = append(sc.Clients, cl)
+	}
+	if dyn {
+		nX := rng.Pick(1, 1, 2, 3)
+		taken := map[int]bool{}
+		for x := 0; x < nX && len(sc.Clients) < 9; x++ {
+			switch rng.Intn(5) {
+			case 0: // a new client id joins late
+				cl := mkClient(fmt.Sprintf("j%d", x))
+				cl.StartMs = rng.Pick(1, 50, 300, 700)
+				sc.Clients = append(sc.Clients, cl)
+			case 1, 2: // the same id reconnects after its connection has ended
+				i := rng.Intn(nC)
+				if taken[i] {
+					continue
+				}
+				taken[i] = true
+				pr := &sc.Clients[i]
+				if pr.End == "" {
+					pr.End = rng.PickStr("disconnect", "close", "reset")
+					pr.EndGapMs = rng.Pick(0, 1, 50, 300)
+				}
+				pr.EndWhen = ""
+				pr.Persist = rng.Bool(0.75) // a clean predecessor leaves a delete-watch echo behind (successor not judged)
+				cl := mkClient(pr.ID)
+				cl.After = "gone"
+				cl.StartMs = rng.Pick(0, 0, 1, 50, 300)
+				sc.Clients = append(sc.Clients, cl)
+			default: // the same id connects again while its connection is still open
+				i := rng.Intn(nC)
+				if taken[i] {
+					continue
+				}
+				taken[i] = true
+				pr := &sc.Clients[i]
+				pr.End = rng.PickStr("", "close", "reset", "disconnect", "ping", "close", "reset")
+				pr.EndWhen = "superseded"
+				pr.EndGapMs = rng.Pick(0, 1, 50, 300)
+				pr.StallAfter, pr.StallMs = 0, 0
+				cl := mkClient(pr.ID)
+				cl.After = "ready"
+				cl.StartMs = rng.Pick(0, 1, 100, 400)
+				sc.Clients = append(sc.Clients, cl)
+			}
+		}
 	}
 	nP := rng.Pick(1, 1, 2)
 	total := 0
@@ -318,6 +412,14 @@ func c15Gen(rng *sim.Rand, tier string) interface{} {
 			}
 			total += p.Burst
 			pb.Pubs = append(pb.Pubs, p)
+		}
+		if dyn && i == 0 {
+			// publishes that span the population changes
+			for j := 0; j < rng.Range(2, 5); j++ {
+				p := c15Pub{ID: fmt.Sprintf("%d.l%d", i, j), GapMs: rng.Pick(100, 300, 600, 1200), T: rng.PickStr(topic(), nestBase, nestChild), Q: qos(), Dist: true, Burst: rng.Pick(1, 1, 3, 8)}
+				total += p.Burst
+				pb.Pubs = append(pb.Pubs, p)
+			}
 		}
 		sc.Publishers = append(sc.Publishers, pb)
 	}
@@ -382,6 +484,16 @@ func c15Shrink(sci interface{}) []interface{} {
 		variant(func(c *c15Scenario) bool {
 			ch := c.Clients[i].StallAfter != 0 || c.Clients[i].StallMs != 0
 			c.Clients[i].StallAfter, c.Clients[i].StallMs = 0, 0
+			return ch
+		})
+		variant(func(c *c15Scenario) bool {
+			ch := c.Clients[i].End != "" || c.Clients[i].EndGapMs != 0
+			c.Clients[i].End, c.Clients[i].EndWhen, c.Clients[i].EndGapMs = "", "", 0
+			return ch
+		})
+		variant(func(c *c15Scenario) bool {
+			ch := c.Clients[i].EndGapMs != 0 || c.Clients[i].StartMs != 0 || c.Clients[i].Persist
+			c.Clients[i].EndGapMs, c.Clients[i].StartMs, c.Clients[i].Persist = 0, 0, false
 			return ch
 		})
 		for j := range sc.Clients[i].Acks {
@@ -542,6 +654,7 @@ type c15Rx struct {
 	ackQueued bool
 	ackSeq    int
 	delaying  bool
+	stray     bool // copy that may stem from the predecessor connection's session
 }
 
 type c15Pkt struct{ issued, recv int }
@@ -567,6 +680,24 @@ type c15Out struct {
 type c15Cl struct {
 	spec      *c15Client
 	idx       int
+	name      string  // unique: id.index
+	pred      *c15Cl  // nearest earlier connection with the same client id
+	succ      []*c15Cl
+	clean     bool
+	connTick  int
+	initial   bool          // part of the population publishers wait for
+	readyCh   chan struct{} // closed once the initial subscribes are acknowledged (or the connection failed)
+	deadCh    chan struct{} // closed when the connection is over on the harness side
+	dead      bool
+	ending    bool // the harness itself is ending this connection
+	supCh     chan struct{} // closed when a successor with the same id was accepted (CONNACK read)
+	supOK     bool
+	lostOK    bool   // the connection was lost when nothing was owed to it any more
+	unjudged  bool   // delivery obligations towards this connection have ceased
+	whyUnj    string
+	tainted   bool // connected while a delete-watch echo for its id may be pending (known C16 finding)
+	unsubbed  bool
+	pendUnsub bool
 	conn      net.Conn
 	connected bool
 	lost      string
@@ -628,6 +759,13 @@ type c15H struct {
 	anyHung  bool
 	resends  int
 	omitted  int
+	nInitial int
+	echo     map[string]bool // client ids for which a delete-watch echo may be pending
+	churn    bool            // some connection ended, was superseded or unsubscribed
+	qcap     int
+	probeOut int // polls the current broker-lock probe has been outstanding
+	probeRun bool
+	locked   bool
 }
 
 // violate reports each class at most once per run.
@@ -688,12 +826,23 @@ func (h *c15H) state2(cl *c15Cl) map[string]int {
 		m[f] = q
 	}
 	for _, s := range cl.pend {
-		m[s.F] = s.Q
+		if cl.pendUnsub {
+			delete(m, s.F)
+		} else {
+			m[s.F] = s.Q
+		}
 	}
 	return m
 }
 
 func (h *c15H) expFor(cl *c15Cl, m *c15Msg) c15Exp {
+	if cl.pred != nil && (!cl.connected || m.tick < cl.connTick) {
+		// issued before this connection of a re-used client id was accepted: a
+		// fan-out that still saw the predecessor's filters may end up here
+		e := c15Elig(cl.confirmed, m.topic, m.q)
+		e.kind = c15May
+		return e
+	}
 	a := c15Elig(cl.confirmed, m.topic, m.q)
 	if cl.pend == nil {
 		return a
@@ -722,9 +871,27 @@ func (h *c15H) markReady(cl *c15Cl) {
 		return
 	}
 	cl.ready = true
-	h.nReady++
-	if h.nReady == len(h.clients) {
-		close(h.readyCh)
+	close(cl.readyCh)
+	if cl.initial {
+		h.nReady++
+		if h.nReady == h.nInitial {
+			close(h.readyCh)
+		}
+	}
+}
+
+func (h *c15H) markDead(cl *c15Cl) {
+	if !cl.dead {
+		cl.dead = true
+		close(cl.deadCh)
+	}
+}
+
+// unjudge ends the delivery obligations towards a connection.
+func (h *c15H) unjudge(cl *c15Cl, why string) {
+	if !cl.unjudged {
+		cl.unjudged = true
+		cl.whyUnj = why
 	}
 }
 
@@ -735,16 +902,49 @@ func (h *c15H) runClient(cl *c15Cl) {
 	fail := func(format string, a ...interface{}) {
 		if !h.stopping {
 			cl.lost = fmt.Sprintf(format, a...)
-			r.Eventf("client %s: %s", cl.spec.ID, cl.lost)
+			cl.lostOK = cl.unjudged || h.echo[cl.spec.ID]
+			r.Eventf("client %s: %s", cl.name, cl.lost)
 		}
 		h.markReady(cl)
+		h.markDead(cl)
 		h.pending--
+		h.progress++
+	}
+	// start condition: waiting for the predecessor is not harness activity
+	if cl.pred != nil && (cl.spec.After == "ready" || cl.spec.After == "gone") {
+		h.pending--
+		ch := cl.pred.readyCh
+		if cl.spec.After == "gone" {
+			ch = cl.pred.deadCh
+		}
+		select {
+		case <-ch:
+		case <-h.stopCh:
+			h.markReady(cl)
+			h.markDead(cl)
+			return
+		}
+		h.pending++
 		h.progress++
 	}
 	// connect at pairwise distinct instants: the resend tickers of the sessions
 	// then never fire at the same instant (goroutines woken by timers at the
 	// same instant run in an irreproducible order).
-	r.Sleep(time.Duration(313+2889*cl.idx) * time.Microsecond)
+	r.Sleep(time.Duration(cl.spec.StartMs)*time.Millisecond + time.Duration(313+2889*cl.idx)*time.Microsecond)
+	if h.stopping {
+		fail("stopped")
+		return
+	}
+	for p := cl.pred; p != nil; p = p.pred {
+		if !p.dead {
+			// from now on the broker may close the older connection at any time
+			h.unjudge(p, "superseded by "+cl.name)
+			h.churn = true
+			r.Probe("mqtt.takeover_of_open_connection")
+		} else {
+			r.Probe("mqtt.reconnect_after_end")
+		}
+	}
 	conn, err := h.net.Dial(gocontext.Background(), "tcp", "10.2.0.1:1883")
 	if err != nil {
 		fail("dial: %v", err)
@@ -754,7 +954,7 @@ func (h *c15H) runClient(cl *c15Cl) {
 	cp := packets.NewControlPacket(packets.Connect).(*packets.ConnectPacket)
 	cp.ProtocolName, cp.ProtocolVersion = "MQTT", 4
 	cp.ClientIdentifier = cl.spec.ID
-	cp.CleanSession = true
+	cp.CleanSession = cl.clean
 	cp.Keepalive = 0
 	if err := cp.Write(conn); err != nil {
 		fail("write CONNECT: %v", err)
@@ -771,21 +971,37 @@ func (h *c15H) runClient(cl *c15Cl) {
 		return
 	}
 	cl.connected = true
-	if bc := h.broker.getClient(cl.spec.ID); bc != nil {
-		cl.qcap = cap(bc.writeCh)
+	h.tick++
+	cl.connTick = h.tick
+	cl.qcap = h.qcap
+	for p := cl.pred; p != nil; p = p.pred {
+		if !p.supOK {
+			p.supOK = true
+			close(p.supCh)
+		}
 	}
-	if cl.qcap < 1 {
-		cl.qcap = 1
+	if h.echo[cl.spec.ID] {
+		// known C16 finding: the delete-watch echo of an earlier clean session
+		// of this id may disconnect this connection at any time
+		cl.tainted = true
+		h.unjudge(cl, "a delete-watch echo for its client id may be pending")
+		r.Probe("mqtt.connection_exposed_to_delete_echo")
 	}
-	r.Eventf("client %s connected", cl.spec.ID)
-	r.Go("w."+cl.spec.ID, func() { h.runWriter(cl) })
-	r.Go("s."+cl.spec.ID, func() { h.runScript(cl) })
+	if cl.pred != nil {
+		h.subChanged(cl)
+	}
+	r.Eventf("client %s connected (clean=%v)", cl.name, cl.clean)
+	h.progress++
+	r.Go("w."+cl.name, func() { h.runWriter(cl) })
+	r.Go("s."+cl.name, func() { h.runScript(cl) })
+	defer h.markDead(cl)
 	for {
 		pk, err := packets.ReadPacket(conn)
 		if err != nil {
-			if !h.stopping && cl.lost == "" {
+			if !h.stopping && !cl.ending && cl.lost == "" {
 				cl.lost = fmt.Sprintf("read: %v", err)
-				r.Eventf("client %s lost its connection: %v", cl.spec.ID, err)
+				cl.lostOK = cl.unjudged
+				r.Eventf("client %s lost its connection: %v", cl.name, err)
 				h.progress++
 			}
 			return
@@ -797,20 +1013,37 @@ func (h *c15H) runClient(cl *c15Cl) {
 		switch p := pk.(type) {
 		case *packets.SubackPacket:
 			h.tick++
-			if cl.pend != nil && p.MessageID == cl.pendMid {
+			if cl.pend != nil && !cl.pendUnsub && p.MessageID == cl.pendMid {
 				cl.pkts = append(cl.pkts, c15Pkt{cl.pendTick, h.tick})
 				for _, s := range cl.pend {
 					cl.confirmed[s.F] = s.Q
 				}
 				cl.pend = nil
 				h.subChanged(cl)
-				r.Eventf("client %s SUBACK %d", cl.spec.ID, p.MessageID)
+				r.Eventf("client %s SUBACK %d", cl.name, p.MessageID)
 				select {
 				case cl.subAckCh <- struct{}{}:
 				default:
 				}
 			} else {
-				h.violate("C15.other", "client %s: SUBACK with id %d without such a SUBSCRIBE outstanding", cl.spec.ID, p.MessageID)
+				h.violate("C15.other", "client %s: SUBACK with id %d without such a SUBSCRIBE outstanding", cl.name, p.MessageID)
+			}
+		case *packets.UnsubackPacket:
+			h.tick++
+			if cl.pend != nil && cl.pendUnsub && p.MessageID == cl.pendMid {
+				cl.pkts = append(cl.pkts, c15Pkt{cl.pendTick, h.tick})
+				for _, s := range cl.pend {
+					delete(cl.confirmed, s.F)
+				}
+				cl.pend, cl.pendUnsub = nil, false
+				h.subChanged(cl)
+				r.Eventf("client %s UNSUBACK %d", cl.name, p.MessageID)
+				select {
+				case cl.subAckCh <- struct{}{}:
+				default:
+				}
+			} else {
+				h.violate("C15.other", "client %s: UNSUBACK with id %d without such an UNSUBSCRIBE outstanding", cl.name, p.MessageID)
 			}
 		case *packets.PublishPacket:
 			h.onPublish(cl, p)
@@ -821,9 +1054,9 @@ func (h *c15H) runClient(cl *c15Cl) {
 		case *packets.PubackPacket:
 			h.tick++
 			cp := cl.pubs[p.MessageID]
-			r.Eventf("client %s PUBACK %d", cl.spec.ID, p.MessageID)
+			r.Eventf("client %s PUBACK %d", cl.name, p.MessageID)
 			if cp == nil || cp.q != 1 {
-				h.violate("C15.puback-unexpected-id", "client %s received PUBACK with packet id %d but sent no QoS1 PUBLISH with that id (sent: %s)", cl.spec.ID, p.MessageID, h.pubIDs(cl))
+				h.violate("C15.puback-unexpected-id", "client %s received PUBACK with packet id %d but sent no QoS1 PUBLISH with that id (sent: %s)", cl.name, p.MessageID, h.pubIDs(cl))
 			} else {
 				cp.acks++
 				cl.pkts = append(cl.pkts, c15Pkt{cp.tick, h.tick})
@@ -838,10 +1071,10 @@ func (h *c15H) runClient(cl *c15Cl) {
 				cl.confSeq = cl.pingMarks[cl.pingsRecv-1]
 				cl.pkts = append(cl.pkts, c15Pkt{cl.pingTicks[cl.pingsRecv-1], h.tick})
 			} else {
-				h.violate("C15.other", "client %s: PINGRESP without PINGREQ", cl.spec.ID)
+				h.violate("C15.other", "client %s: PINGRESP without PINGREQ", cl.name)
 			}
 		default:
-			h.violate("C15.other", "client %s received unexpected packet %s", cl.spec.ID, pk.String())
+			h.violate("C15.other", "client %s received unexpected packet %s", cl.name, pk.String())
 		}
 	}
 }
@@ -860,22 +1093,22 @@ func (h *c15H) onPublish(cl *c15Cl, p *packets.PublishPacket) {
 	now := h.tick
 	key := string(p.Payload)
 	m := h.msgs[key]
-	r.Eventf("client %s <- PUBLISH %s q%d id%d %q", cl.spec.ID, p.TopicName, p.Qos, p.MessageID, c15Short(key))
+	r.Eventf("client %s <- PUBLISH %s q%d id%d %q", cl.name, p.TopicName, p.Qos, p.MessageID, c15Short(key))
 	if m == nil {
-		h.violate("C15.payload-corrupt", "client %s received PUBLISH topic %q qos %d with payload %q that no publisher issued", cl.spec.ID, p.TopicName, p.Qos, key)
+		h.violate("C15.payload-corrupt", "client %s received PUBLISH topic %q qos %d with payload %q that no publisher issued", cl.name, p.TopicName, p.Qos, key)
 		return
 	}
 	cl.pkts = append(cl.pkts, c15Pkt{m.tick, now})
 	if p.TopicName != m.topic {
-		h.violate("C15.wrong-topic", "client %s received message %q on topic %q, it was published on %q", cl.spec.ID, c15Short(key), p.TopicName, m.topic)
+		h.violate("C15.wrong-topic", "client %s received message %q on topic %q, it was published on %q", cl.name, c15Short(key), p.TopicName, m.topic)
 	}
 	e := m.exp[cl.idx]
 	switch e.kind {
 	case c15None:
-		h.violate("C15.unsubscribed-delivery", "client %s received message %q (topic %q, qos %d) but none of its filters %s matches the topic", cl.spec.ID, c15Short(key), m.topic, m.q, c15Subs(h.state2(cl)))
+		h.violate("C15.unsubscribed-delivery", "client %s received message %q (topic %q, qos %d) but none of its filters %s matches the topic", cl.name, c15Short(key), m.topic, m.q, c15Subs(h.state2(cl)))
 	case c15Low:
 		if int(p.Qos) > e.maxLow {
-			h.violate("C15.qos-above-subscription", "client %s received message %q at QoS %d; its matching filters grant at most QoS %d (message QoS %d, filters %s)", cl.spec.ID, c15Short(key), p.Qos, e.maxLow, m.q, c15Subs(h.state2(cl)))
+			h.violate("C15.qos-above-subscription", "client %s received message %q at QoS %d; its matching filters grant at most QoS %d (message QoS %d, filters %s)", cl.name, c15Short(key), p.Qos, e.maxLow, m.q, c15Subs(h.state2(cl)))
 		} else {
 			r.Probe("mqtt.downgraded_copy_to_lower_qos_subscriber")
 		}
@@ -892,7 +1125,7 @@ func (h *c15H) onPublish(cl *c15Cl, p *packets.PublishPacket) {
 	defer h.maybeStall(cl)
 	if p.Qos == 0 {
 		if m.q == 1 && e.kind == c15Must {
-			h.violate("C15.qos-downgraded", "client %s (eligible: filters %s) received QoS1 message %q as QoS0", cl.spec.ID, c15Subs(h.state2(cl)), c15Short(key))
+			h.violate("C15.qos-downgraded", "client %s (eligible: filters %s) received QoS1 message %q as QoS0", cl.name, c15Subs(h.state2(cl)), c15Short(key))
 		}
 		if !first {
 			r.Probe("mqtt.qos0_duplicate")
@@ -900,14 +1133,30 @@ func (h *c15H) onPublish(cl *c15Cl, p *packets.PublishPacket) {
 		return
 	}
 	if m.q == 0 {
-		h.violate("C15.wrong-qos", "client %s received QoS0 message %q as QoS%d", cl.spec.ID, c15Short(key), p.Qos)
+		h.violate("C15.wrong-qos", "client %s received QoS0 message %q as QoS%d", cl.name, c15Short(key), p.Qos)
 		return
+	}
+	if cl.pred != nil && m.tick < cl.connTick && !rx.qos1 {
+		// issued before this connection of a re-used client id was accepted: the
+		// copy may come from the predecessor's (discarded) session, with that
+		// session's packet ids and without retransmission (session take-over is
+		// C16's subject). A white-box look decides how the harness client treats
+		// it, not whether anything is wrong: if the id's current session holds
+		// this very message under this packet id, it is an ordinary message of
+		// this connection; otherwise it is neither acknowledged (the id could
+		// belong to another message of the new session) nor judged.
+		if rx.stray || !h.ownedBySession(cl, p) {
+			rx.stray = true
+			r.Probe("mqtt.copy_from_predecessor_session")
+			return
+		}
+		r.Probe("mqtt.pre_takeover_message_in_successor_session")
 	}
 	if !rx.qos1 {
 		rx.qos1 = true
 		rx.mid = p.MessageID
 		if other, ok := cl.byMid[p.MessageID]; ok && other != key && !cl.rx[other].ackQueued {
-			h.violate("C15.packet-id-reused", "client %s: packet id %d carries message %q while message %q with the same id is still unacknowledged", cl.spec.ID, p.MessageID, c15Short(key), c15Short(other))
+			h.violate("C15.packet-id-reused", "client %s: packet id %d carries message %q while message %q with the same id is still unacknowledged", cl.name, p.MessageID, c15Short(key), c15Short(other))
 		}
 		cl.byMid[p.MessageID] = key
 		if len(cl.spec.Acks) > 0 {
@@ -915,10 +1164,10 @@ func (h *c15H) onPublish(cl *c15Cl, p *packets.PublishPacket) {
 		}
 		cl.nQ1++
 	} else if rx.mid != p.MessageID {
-		h.violate("C15.resend-changed-packet-id", "client %s: message %q first came with packet id %d, a later copy with %d", cl.spec.ID, c15Short(key), rx.mid, p.MessageID)
+		h.violate("C15.resend-changed-packet-id", "client %s: message %q first came with packet id %d, a later copy with %d", cl.name, c15Short(key), rx.mid, p.MessageID)
 	}
 	if rx.ackSeq > 0 && rx.ackSeq <= cl.confSeq {
-		h.violate("C15.resend-after-ack", "client %s: copy #%d of QoS1 message %q (packet id %d) arrived after the broker had processed its PUBACK (a PINGRESP for a PINGREQ sent after that PUBACK was already received)", cl.spec.ID, rx.count, c15Short(key), rx.mid)
+		h.violate("C15.resend-after-ack", "client %s: copy #%d of QoS1 message %q (packet id %d) arrived after the broker had processed its PUBACK (a PINGRESP for a PINGREQ sent after that PUBACK was already received)", cl.name, rx.count, c15Short(key), rx.mid)
 		return
 	}
 	if rx.count > 1 {
@@ -940,7 +1189,7 @@ func (h *c15H) onPublish(cl *c15Cl, p *packets.PublishPacket) {
 			h.pending++
 			r.Probe("mqtt.puback_delayed")
 			d := time.Duration(rx.pol.DelayMs) * time.Millisecond
-			r.Go(fmt.Sprintf("a.%s.%d", cl.spec.ID, cl.nQ1), func() {
+			r.Go(fmt.Sprintf("a.%s.%d", cl.name, cl.nQ1), func() {
 				r.Sleep(d)
 				h.queueAck(cl, rx)
 				h.pending--
@@ -949,6 +1198,21 @@ func (h *c15H) onPublish(cl *c15Cl, p *packets.PublishPacket) {
 		return
 	}
 	h.queueAck(cl, rx)
+}
+
+// ownedBySession tells whether the session currently registered for the
+// connection's client id has this message pending under this packet id.
+func (h *c15H) ownedBySession(cl *c15Cl, p *packets.PublishPacket) bool {
+	v, ok := h.broker.sessMgr.sessionMap.Load(cl.spec.ID)
+	if !ok {
+		return false
+	}
+	sess, ok := v.(*Session)
+	if !ok || sess == nil {
+		return false
+	}
+	pm, ok := sess.pending[p.MessageID]
+	return ok && pm != nil && pm.Topic == p.TopicName && pm.B64Payload == base64.StdEncoding.EncodeToString(p.Payload)
 }
 
 func (h *c15H) queueAck(cl *c15Cl, rx *c15Rx) {
@@ -1001,13 +1265,15 @@ func (h *c15H) runWriter(cl *c15Cl) {
 			case <-cl.wake:
 			case <-h.stopCh:
 				return
+			case <-cl.deadCh:
+				return
 			}
 		}
 		h.r.Yield("c15.write")
-		if h.stopping || len(cl.outbox) == 0 {
-			if h.stopping {
-				return
-			}
+		if h.stopping || cl.dead {
+			return
+		}
+		if len(cl.outbox) == 0 {
 			continue
 		}
 		o := cl.outbox[0]
@@ -1018,24 +1284,32 @@ func (h *c15H) runWriter(cl *c15Cl) {
 			if o.rx.ackSeq == 0 {
 				o.rx.ackSeq = cl.ackSeq
 			}
-			h.r.Eventf("client %s -> PUBACK %d", cl.spec.ID, o.rx.mid)
+			h.r.Eventf("client %s -> PUBACK %d", cl.name, o.rx.mid)
 		case "ping":
 			h.tick++
 			cl.pingMarks = append(cl.pingMarks, cl.ackSeq)
 			cl.pingTicks = append(cl.pingTicks, h.tick)
 		}
 		if err := o.pkt.Write(cl.conn); err != nil {
-			if !h.stopping && cl.lost == "" {
+			if !h.stopping && !cl.ending && cl.lost == "" {
 				cl.lost = fmt.Sprintf("write: %v", err)
-				h.r.Eventf("client %s lost its connection on write: %v", cl.spec.ID, err)
+				cl.lostOK = cl.unjudged
+				h.r.Eventf("client %s lost its connection on write: %v", cl.name, err)
 			}
 			return
 		}
 		h.progress++
+		if o.kind == "disconnect" {
+			cl.conn.Close()
+			h.markDead(cl)
+			return
+		}
 	}
 }
 
-func (h *c15H) subscribe(cl *c15Cl, subs []c15Sub) bool {
+// subscribe sends one SUBSCRIBE (or UNSUBSCRIBE) and waits for its
+// acknowledgement; at most one is outstanding per connection.
+func (h *c15H) subscribe(cl *c15Cl, subs []c15Sub, unsub bool) bool {
 	var ok []c15Sub
 	for _, s := range subs {
 		if c15ValidFilter(s.F) && (s.Q == 0 || s.Q == 1) {
@@ -1045,18 +1319,36 @@ func (h *c15H) subscribe(cl *c15Cl, subs []c15Sub) bool {
 	if len(ok) == 0 {
 		return true
 	}
-	sp := packets.NewControlPacket(packets.Subscribe).(*packets.SubscribePacket)
 	cl.nextMid++
-	sp.MessageID = cl.nextMid
-	for _, s := range ok {
-		sp.Topics = append(sp.Topics, s.F)
-		sp.Qoss = append(sp.Qoss, byte(s.Q))
+	mid := cl.nextMid
+	var pkt packets.ControlPacket
+	if unsub {
+		up := packets.NewControlPacket(packets.Unsubscribe).(*packets.UnsubscribePacket)
+		up.MessageID = mid
+		for _, s := range ok {
+			up.Topics = append(up.Topics, s.F)
+		}
+		pkt = up
+		cl.unsubbed = true
+		h.churn = true
+	} else {
+		sp := packets.NewControlPacket(packets.Subscribe).(*packets.SubscribePacket)
+		sp.MessageID = mid
+		for _, s := range ok {
+			sp.Topics = append(sp.Topics, s.F)
+			sp.Qoss = append(sp.Qoss, byte(s.Q))
+		}
+		pkt = sp
 	}
 	h.tick++
-	cl.pend, cl.pendMid, cl.pendTick = ok, sp.MessageID, h.tick
+	cl.pend, cl.pendUnsub, cl.pendMid, cl.pendTick = ok, unsub, mid, h.tick
 	h.subChanged(cl)
-	h.r.Eventf("client %s -> SUBSCRIBE %d %s", cl.spec.ID, sp.MessageID, c15SubList(ok))
-	h.enqueue(cl, c15Out{pkt: sp, kind: "sub"})
+	if unsub {
+		h.r.Eventf("client %s -> UNSUBSCRIBE %d %s", cl.name, mid, c15SubList(ok))
+	} else {
+		h.r.Eventf("client %s -> SUBSCRIBE %d %s", cl.name, mid, c15SubList(ok))
+	}
+	h.enqueue(cl, c15Out{pkt: pkt, kind: "sub"})
 	select {
 	case <-cl.subAckCh:
 		return true
@@ -1065,6 +1357,69 @@ func (h *c15H) subscribe(cl *c15Cl, subs []c15Sub) bool {
 		return false
 	case <-cl.hungCh:
 		return false
+	case <-cl.deadCh:
+		return false
+	}
+}
+
+// endConn ends the connection the way the scenario says.
+func (h *c15H) endConn(cl *c15Cl) {
+	r := h.r
+	sp := cl.spec
+	if sp.End == "" || cl.hung || cl.dead {
+		return
+	}
+	if sp.EndWhen == "superseded" {
+		if len(cl.succ) == 0 {
+			return
+		}
+		h.pending-- // waiting for another connection is not activity of this one
+		select {
+		case <-cl.supCh:
+		case <-h.stopCh:
+		case <-cl.deadCh:
+		}
+		h.pending++
+	}
+	r.Sleep(time.Duration(sp.EndGapMs) * time.Millisecond)
+	if h.stopping || cl.dead {
+		return
+	}
+	if sp.End == "ping" {
+		// lets the read loop of a superseded connection notice that it is closed
+		if cl.supOK {
+			r.Probe("mqtt.superseded_connection_sends_pingreq")
+			h.enqueue(cl, c15Out{pkt: packets.NewControlPacket(packets.Pingreq), kind: "ping"})
+		}
+		return
+	}
+	cl.ending = true
+	h.unjudge(cl, "ended by the client ("+sp.End+")")
+	h.churn = true
+	if cl.clean && !cl.supOK {
+		// its teardown deletes the stored session: the delete-watch echo may
+		// hit a later connection of this id (known C16 finding)
+		h.echo[sp.ID] = true
+	}
+	if cl.supOK {
+		r.Probe("mqtt.superseded_connection_ends_later")
+	}
+	r.Eventf("client %s ends: %s", cl.name, sp.End)
+	r.Fault("client.ends_" + sp.End)
+	h.progress++
+	switch sp.End {
+	case "disconnect":
+		h.enqueue(cl, c15Out{pkt: packets.NewControlPacket(packets.Disconnect), kind: "disconnect"})
+	case "reset":
+		if sc, ok := cl.conn.(*simnet.Conn); ok {
+			sc.Reset()
+		} else {
+			cl.conn.Close()
+		}
+		h.markDead(cl)
+	default:
+		cl.conn.Close()
+		h.markDead(cl)
 	}
 }
 
@@ -1076,23 +1431,33 @@ func (h *c15H) runScript(cl *c15Cl) {
 		h.progress++
 	}()
 	for _, sp := range cl.spec.Init {
-		if !h.subscribe(cl, sp.Subs) {
+		if !h.subscribe(cl, sp.Subs, false) {
 			return
 		}
 	}
 	h.markReady(cl)
 	for _, op := range cl.spec.Ops {
-		if h.stopping || cl.hung || cl.lost != "" {
+		if h.stopping || cl.hung || cl.lost != "" || cl.dead {
 			return
 		}
 		r.Sleep(time.Duration(op.GapMs) * time.Millisecond)
-		if h.stopping {
+		if h.stopping || cl.dead {
 			return
 		}
 		switch op.K {
-		case "sub":
-			r.Probe("mqtt.late_subscribe")
-			if !h.subscribe(cl, op.Subs) {
+		case "sub", "unsub":
+			if len(cl.succ) > 0 {
+				// a connection that is going to be superseded does not change its
+				// subscriptions any more: a SUBSCRIBE processed after the take-over
+				// would act on the successor's client id (C16's domain)
+				continue
+			}
+			if op.K == "sub" {
+				r.Probe("mqtt.late_subscribe")
+			} else {
+				r.Probe("mqtt.unsubscribe")
+			}
+			if !h.subscribe(cl, op.Subs, op.K == "unsub") {
 				return
 			}
 		case "pub":
@@ -1104,16 +1469,17 @@ func (h *c15H) runScript(cl *c15Cl) {
 			pp.MessageID = cl.nextMid
 			pp.Qos = byte(op.Q)
 			pp.TopicName = op.T
-			payload := fmt.Sprintf("cp:%s:%s:%d", cl.spec.ID, op.ID, pp.MessageID)
+			payload := fmt.Sprintf("cp:%s:%s:%d", cl.name, op.ID, pp.MessageID)
 			pp.Payload = []byte(payload)
 			h.tick++
 			cp := &c15CPub{id: op.ID, topic: op.T, q: op.Q, mid: pp.MessageID, payload: payload, tick: h.tick, dropped: h.drop[op.T]}
 			cl.pubs[pp.MessageID] = cp
 			cl.pubOrder = append(cl.pubOrder, pp.MessageID)
-			r.Eventf("client %s -> PUBLISH %s q%d id%d", cl.spec.ID, op.T, op.Q, pp.MessageID)
+			r.Eventf("client %s -> PUBLISH %s q%d id%d", cl.name, op.T, op.Q, pp.MessageID)
 			h.enqueue(cl, c15Out{pkt: pp, kind: "pub"})
 		}
 	}
+	h.endConn(cl)
 }
 
 // ---- publisher tasks ------------------------------------------------------------
@@ -1225,7 +1591,7 @@ func c15SubList(l []c15Sub) string {
 // satisfied tells whether every obligation of the run is already met.
 func (h *c15H) satisfied() bool {
 	for _, cl := range h.clients {
-		if cl.hung || cl.lost != "" || !cl.connected {
+		if cl.hung || cl.lost != "" || !cl.connected || cl.unjudged {
 			continue
 		}
 		for _, m := range h.msgList {
@@ -1235,7 +1601,7 @@ func (h *c15H) satisfied() bool {
 		}
 		for _, key := range cl.rxOrder {
 			rx := cl.rx[key]
-			if rx.qos1 && (rx.ackSeq == 0 || (rx.pol.Ping && rx.ackSeq > cl.confSeq)) {
+			if rx.qos1 && !rx.stray && (rx.ackSeq == 0 || (rx.pol.Ping && rx.ackSeq > cl.confSeq)) {
 				return false
 			}
 		}
@@ -1270,6 +1636,29 @@ func (cl *c15Cl) maxOccFrom(from, end int) int {
 	return best
 }
 
+// population summarises what happened to the connections of the run.
+func (h *c15H) population() string {
+	var s []string
+	for _, cl := range h.clients {
+		st := "stays"
+		switch {
+		case !cl.connected:
+			st = "never accepted"
+		case cl.ending:
+			st = "ended by " + cl.spec.End
+		case cl.lost != "":
+			st = "closed by the broker"
+		case cl.unjudged:
+			st = cl.whyUnj
+		}
+		if cl.unsubbed {
+			st += ", unsubscribed something"
+		}
+		s = append(s, cl.name+": "+st)
+	}
+	return strings.Join(s, "; ")
+}
+
 func (h *c15H) describe(m *c15Msg) string {
 	var s []string
 	for _, cl := range h.clients {
@@ -1281,7 +1670,10 @@ func (h *c15H) describe(m *c15Msg) string {
 		if cl.hung {
 			st = " (stopped reading)"
 		}
-		s = append(s, fmt.Sprintf("%s%s filters %s -> %s", cl.spec.ID, st, c15Subs(h.state2(cl)), got))
+		if cl.unjudged {
+			st += " (not judged: " + cl.whyUnj + ")"
+		}
+		s = append(s, fmt.Sprintf("%s%s filters %s -> %s", cl.name, st, c15Subs(h.state2(cl)), got))
 	}
 	return strings.Join(s, "; ")
 }
@@ -1290,17 +1682,22 @@ func (h *c15H) evaluate() {
 	r := h.r
 	for _, cl := range h.clients {
 		if cl.lost != "" {
-			h.violate("C15.unexpected-disconnect", "client %s, which follows the protocol, lost its connection: %s", cl.spec.ID, cl.lost)
+			if !cl.lostOK {
+				h.violate("C15.unexpected-disconnect", "client %s, which follows the protocol, whose client id nobody else used meanwhile and which did not end the connection itself, lost its connection: %s\n%s", cl.name, cl.lost, h.population())
+			} else {
+				r.Probe("mqtt.unjudged_connection_closed_by_broker")
+			}
 			continue
 		}
-		if !cl.connected {
-			continue
-		}
-		if cl.hung {
+		if !cl.connected || cl.hung || cl.unjudged {
 			continue
 		}
 		if cl.pend != nil {
-			h.violate("C15.suback-missing", "client %s: SUBSCRIBE %d %s was never acknowledged", cl.spec.ID, cl.pendMid, c15SubList(cl.pend))
+			what := "SUBSCRIBE"
+			if cl.pendUnsub {
+				what = "UNSUBSCRIBE"
+			}
+			h.violate("C15.suback-missing", "client %s: %s %d %s was never acknowledged", cl.name, what, cl.pendMid, c15SubList(cl.pend))
 		}
 		for _, m := range h.msgList {
 			e := m.exp[cl.idx]
@@ -1319,10 +1716,10 @@ func (h *c15H) evaluate() {
 					continue
 				}
 				if m.exp[o.idx].lower && otherLower == "" {
-					otherLower = o.spec.ID
+					otherLower = o.name
 				}
 				if o.hung && (m.exp[o.idx].kind == c15Must || m.exp[o.idx].kind == c15May) && hungMatched == "" {
-					hungMatched = o.spec.ID
+					hungMatched = o.name
 				}
 			}
 			if m.q == 0 {
@@ -1333,15 +1730,19 @@ func (h *c15H) evaluate() {
 				}
 				if hungMatched != "" {
 					h.violate("C15.fanout-blocked-by-unresponsive-subscriber", "QoS0 message %q on %q never reached eligible client %s (subscriber %s stopped reading while staying connected; at most %d packets can have been waiting in %s's outbound queue of capacity %d)\n%s",
-						c15Short(m.key), m.topic, cl.spec.ID, hungMatched, occ, cl.spec.ID, cl.qcap, h.describe(m))
+						c15Short(m.key), m.topic, cl.name, hungMatched, occ, cl.name, cl.qcap, h.describe(m))
 					continue
 				}
 				h.violate("C15.qos0-lost-queue-not-full", "QoS0 message %q on %q never reached eligible client %s although at most %d packets can have been waiting in its outbound queue (capacity %d) from the publish on\n%s",
-					c15Short(m.key), m.topic, cl.spec.ID, occ, cl.qcap, h.describe(m))
+					c15Short(m.key), m.topic, cl.name, occ, cl.qcap, h.describe(m))
 				continue
 			}
 			class := "C15.missing-delivery"
-			why := ""
+			why := "no other connection changed"
+			if h.churn {
+				class = "C15.delivery-lost-after-subscriber-churn"
+				why = "this connection stayed connected and subscribed while other connections unsubscribed, ended or were replaced: " + h.population()
+			}
 			switch {
 			case hungMatched != "":
 				class = "C15.fanout-blocked-by-unresponsive-subscriber"
@@ -1353,13 +1754,13 @@ func (h *c15H) evaluate() {
 				class = "C15.fanout-stops-at-lower-qos-subscriber"
 				why = "subscriber " + otherLower + " matches the topic with a QoS below the message's"
 			}
-			h.violate(class, "QoS1 message %q on %q never reached eligible client %s (%s)\n%s", c15Short(m.key), m.topic, cl.spec.ID, why, h.describe(m))
+			h.violate(class, "QoS1 message %q on %q never reached eligible client %s (%s)\n%s", c15Short(m.key), m.topic, cl.name, why, h.describe(m))
 		}
 		for _, key := range cl.rxOrder {
 			rx := cl.rx[key]
-			if rx.qos1 && !rx.ackQueued && !rx.delaying {
+			if rx.qos1 && !rx.stray && !rx.ackQueued && !rx.delaying {
 				h.violate("C15.retransmission-stopped-before-ack", "client %s received %d copies of QoS1 message %q (packet id %d) and acknowledges the copy #%d; nothing was retransmitted any more although no PUBACK was sent",
-					cl.spec.ID, rx.count, c15Short(key), rx.mid, rx.pol.Omit+1)
+					cl.name, rx.count, c15Short(key), rx.mid, rx.pol.Omit+1)
 			}
 		}
 		for _, mid := range cl.pubOrder {
@@ -1369,12 +1770,12 @@ func (h *c15H) evaluate() {
 				if rec.cid == cl.spec.ID && rec.payload == cp.payload {
 					seen++
 					if rec.topic != cp.topic || rec.qos != cp.q || (cp.q == 1 && rec.mid != cp.mid) {
-						h.violate("C15.client-publish-altered", "client %s PUBLISH %q q%d id%d reached the pipeline as %q q%d id%d", cl.spec.ID, cp.topic, cp.q, cp.mid, rec.topic, rec.qos, rec.mid)
+						h.violate("C15.client-publish-altered", "client %s PUBLISH %q q%d id%d reached the pipeline as %q q%d id%d", cl.name, cp.topic, cp.q, cp.mid, rec.topic, rec.qos, rec.mid)
 					}
 				}
 			}
 			if seen > 1 {
-				h.violate("C15.backend-duplicate", "client %s PUBLISH id %d was handed to the pipeline %d times", cl.spec.ID, cp.mid, seen)
+				h.violate("C15.backend-duplicate", "client %s PUBLISH id %d was handed to the pipeline %d times", cl.name, cp.mid, seen)
 			}
 			if cp.q != 1 {
 				continue
@@ -1384,7 +1785,7 @@ func (h *c15H) evaluate() {
 					r.Probe("mqtt.client_publish_refused_by_limiter")
 					continue
 				}
-				h.violate("C15.client-publish-not-forwarded", "client %s QoS1 PUBLISH id %d on %q never reached the publish pipeline (no limiter configured)", cl.spec.ID, cp.mid, cp.topic)
+				h.violate("C15.client-publish-not-forwarded", "client %s QoS1 PUBLISH id %d on %q never reached the publish pipeline (no limiter configured)", cl.name, cp.mid, cp.topic)
 				continue
 			}
 			if cp.dropped {
@@ -1392,7 +1793,7 @@ func (h *c15H) evaluate() {
 				continue
 			}
 			if cp.acks == 0 {
-				h.violate("C15.client-publish-not-acked", "client %s QoS1 PUBLISH id %d on %q was handed to the pipeline but no PUBACK with id %d arrived", cl.spec.ID, cp.mid, cp.topic, cp.mid)
+				h.violate("C15.client-publish-not-acked", "client %s QoS1 PUBLISH id %d on %q was handed to the pipeline but no PUBACK with id %d arrived", cl.name, cp.mid, cp.topic, cp.mid)
 			} else {
 				r.Probe("mqtt.client_qos1_publish_acked")
 			}
@@ -1412,24 +1813,45 @@ func c15Exec(r *sim.Run, sci interface{}) {
 		c15LoggerReady = true
 	}
 	r.MultiClass = true
-	h := &c15H{r: r, sc: sc, msgs: map[string]*c15Msg{}, drop: map[string]bool{}, once: map[string]bool{}}
+	h := &c15H{r: r, sc: sc, msgs: map[string]*c15Msg{}, drop: map[string]bool{}, once: map[string]bool{}, echo: map[string]bool{}}
 	h.stopCh = make(chan struct{})
 	h.readyCh = make(chan struct{})
 	for _, t := range sc.DropTopics {
 		h.drop[t] = true
 	}
-	seen := map[string]bool{}
+	last := map[string]*c15Cl{}
+	nth := map[string]int{}
 	for i := range sc.Clients {
 		c := &sc.Clients[i]
-		if c.ID == "" || seen[c.ID] || len(h.clients) >= 8 {
+		if c.ID == "" || len(h.clients) >= 10 {
 			continue
 		}
-		seen[c.ID] = true
-		h.clients = append(h.clients, &c15Cl{spec: c, idx: len(h.clients), confirmed: map[string]int{}, subAckCh: make(chan struct{}, 1),
-			hungCh: make(chan struct{}), wake: make(chan struct{}, 1), rx: map[string]*c15Rx{}, byMid: map[uint16]string{}, pubs: map[uint16]*c15CPub{}})
+		cl := &c15Cl{spec: c, idx: len(h.clients), name: c.ID, confirmed: map[string]int{}, subAckCh: make(chan struct{}, 1),
+			hungCh: make(chan struct{}), wake: make(chan struct{}, 1), rx: map[string]*c15Rx{}, byMid: map[uint16]string{}, pubs: map[uint16]*c15CPub{},
+			readyCh: make(chan struct{}), deadCh: make(chan struct{}), supCh: make(chan struct{})}
+		nth[c.ID]++
+		if p := last[c.ID]; p != nil {
+			cl.pred = p
+			cl.name = fmt.Sprintf("%s~%d", c.ID, nth[c.ID])
+			for q := p; q != nil; q = q.pred {
+				q.succ = append(q.succ, cl)
+			}
+		}
+		// cleanSession=0 only for the first connection of an id: inheriting a
+		// stored session is C16's subject (and has known store-lag findings)
+		cl.clean = !(c.Persist && cl.pred == nil)
+		cl.initial = cl.pred == nil && c.StartMs == 0
+		if cl.initial {
+			h.nInitial++
+		}
+		last[c.ID] = cl
+		h.clients = append(h.clients, cl)
 	}
 	if len(h.clients) == 0 {
 		return
+	}
+	if h.nInitial == 0 {
+		close(h.readyCh)
 	}
 
 	h.net = simnet.New()
@@ -1465,11 +1887,15 @@ func c15Exec(r *sim.Run, sci interface{}) {
 		h.net.Shutdown()
 		panic("c15: newBroker returned nil")
 	}
+	h.qcap = cap(newClient(&packets.ConnectPacket{}, h.broker, nil, nil).writeCh)
+	if h.qcap < 1 {
+		h.qcap = 1
+	}
 
 	for _, cl := range h.clients {
 		cl := cl
 		h.pending++
-		r.Go("c."+cl.spec.ID, func() { h.runClient(cl) })
+		r.Go("c."+cl.name, func() { h.runClient(cl) })
 	}
 	for i := range sc.Publishers {
 		pb := &sc.Publishers[i]
@@ -1478,14 +1904,30 @@ func c15Exec(r *sim.Run, sci interface{}) {
 	}
 
 	// wait for quiescence
-	idle, calm, last := 0, 0, -1
+	idle, calm, lastProg := 0, 0, -1
 	for it := 0; it < 1500; it++ {
 		r.Sleep(300 * time.Millisecond)
 		if r.Aborted() {
 			break
 		}
-		busy := h.pending > 0 || h.progress != last
-		last = h.progress
+		// probe the broker lock: a read lock that is not granted during 21
+		// polls (at least one of them without a scheduler stall) never will be
+		if h.probeRun {
+			h.probeOut++
+			if h.probeOut >= 21 {
+				h.locked = true
+				h.violate("C15.broker-deadlock", "the broker lock could not be read-locked during %d polls of 300 ms: the broker is deadlocked, nothing is delivered any more\n%s", h.probeOut, h.population())
+				break
+			}
+		} else {
+			h.probeRun, h.probeOut = true, 0
+			go func() {
+				h.broker.getClient("c15-probe")
+				h.probeRun = false
+			}()
+		}
+		busy := h.pending > 0 || h.progress != lastProg
+		lastProg = h.progress
 		if busy {
 			idle, calm = 0, 0
 			continue
@@ -1503,7 +1945,7 @@ func c15Exec(r *sim.Run, sci interface{}) {
 			calm = 0
 		}
 	}
-	if !r.Aborted() {
+	if !r.Aborted() && !h.locked {
 		h.evaluate()
 	}
 
@@ -1537,7 +1979,7 @@ func c15Exec(r *sim.Run, sci interface{}) {
 	}
 	var sig strings.Builder
 	for _, cl := range h.clients {
-		fmt.Fprintf(&sig, "%s%s|", cl.spec.ID, c15Subs(cl.confirmed))
+		fmt.Fprintf(&sig, "%s%s|", cl.name, c15Subs(cl.confirmed))
 		for _, key := range cl.rxOrder {
 			fmt.Fprintf(&sig, "%s*%d,", c15Short(key), cl.rx[key].count)
 		}
@@ -1553,7 +1995,22 @@ func c15Exec(r *sim.Run, sci interface{}) {
 			cl.conn.Close()
 		}
 	}
-	h.broker.close()
+	if !h.locked {
+		closed := make(chan struct{})
+		go func() {
+			h.broker.close()
+			close(closed)
+		}()
+	wait:
+		for i := 0; i < 40; i++ {
+			select {
+			case <-closed:
+				break wait
+			default:
+				r.Sleep(50 * time.Millisecond)
+			}
+		}
+	}
 	h.net.Shutdown()
 	r.WaitTasks()
 }
@@ -1566,6 +2023,7 @@ func TestVerifC15(t *testing.T) {
 		Exec:     c15Exec,
 		Shrink:   c15Shrink,
 		MaxSteps: 600000,
+		DeadlockClass: "C15.deadlock",
 		Rule: "scenario = 2-6 raw MQTT clients with 1-6 overlapping filters of QoS 0/1 over 1-4 topics (1-2 SUBSCRIBE packets, late re-subscriptions), per-client PUBACK behaviours (prompt, omit k, delay, duplicate, +PINGREQ), optional read stall, client PUBLISH ops; 1-2 publishers with 1-8 HTTP publishes each (QoS 0/1, bursts up to 120), limiter/pipeline-drop knobs, simnet buffer/segment/latency plan; " +
 			"non-trivial = some message had >=2 eligible subscribers and (a QoS1 message had both eligible and lower-QoS subscribers, or a retransmission was observed); distinct = distinct (final subscriptions, per-client sequence of received messages with copy counts) signatures",
 		Real: []string{"pkg/object/mqttproxy: newBroker, Broker.run/handleConn/connectionValidation/setSession, sendMsgToClient, httpTopicsPublishHandler, Client.readLoop/writeLoop/processPacket (SUBSCRIBE, PUBLISH, PUBACK, PINGREQ), pipelineWrapper, Limiter, SessionManager, Session.publish/puback/doResend/backgroundResendPending (200 ms ticker on the virtual clock), TopicManager",
